@@ -18,6 +18,7 @@ Data formats that describe the general structure of the data.
 import codecs
 import csv
 import string
+import sys
 import token
 import tokenize
 
@@ -498,6 +499,12 @@ class DataFormat(object):
         # TODO: Handle 'none' properly.
         assert result_code is not None
         assert result_code >= 0
+        if result_code > sys.maxunicode:
+            raise errors.InterfaceError(
+                "value for %s is %s but must be a Unicode code between 0 and %d"
+                % (name_for_errors, _compat.text_repr(value), sys.maxunicode),
+                location,
+            )
         result = chr(result_code)
         return result
 
